@@ -18,6 +18,21 @@ RULES = {
 }
 CONTROL_REV = '078b142'  # thorough tier: the rules must still report the defects found (and since fixed) on the original tree
 CONTROLS = [('C13.R1', 'DfsEdge::new#seed'), ('C13.R3', 'Bfs::next#n_remaining'), ('C13.R4', 'DfsPre::skip_subtree#reset'), ('C13.R4', 'DfsEdge::skip_subtree#reset'), ('C13.R4', 'Bfs::skip_subtree#reset'), ('C13.R5', 'DfsPre::skip_subtree#size_lb'), ('C13.R5', 'DfsEdge::new#size_lb'), ('C13.R5', '<PolyhedraIter_as_Iterator>::size_hint')]
+WRAPPERS = {
+    'Tree::node_indices': ('Iterator::map(self.arena, closure {closure#0}[])', ['_2.0'], 'the keys of the arena, in index order'),
+    'Tree::node_iter': ('self.arena', [], 'the (index, node) pairs of the arena, in index order'),
+    'Tree::get_root_idx': ('self.root', [], 'the stored root index'),
+    'Tree::is_root': (['phi((self.root Eq idx) | False)', '(self.root Eq idx)', '(idx Eq self.root)'], [], 'idx is the stored root index'),
+    'Tree::is_leaf': ('Result::map(Tree::tree_node(self, idx), closure {closure#0}[])', ['nd.isleaf'], 'the leaf flag of that node (Err for an invalid index)'),
+    'Tree::dfs_edge_iter': ('DfsEdge::iter(self, Tree::get_root_idx(self))', [], 'edge traversal from the root'),
+    'Tree::len': ('Slab::len(self.arena)', [], 'number of stored nodes'),
+    'AffTree::len': ('Tree::len(self.tree)', [], 'delegates to the arena tree'),
+    'AffTree::num_terminals': ('Tree::num_terminals(self.tree)', [], 'delegates to the arena tree'),
+    'AffTree::depth': ('Tree::depth(self.tree)', [], 'delegates to the arena tree'),
+    'AffTree::nodes': ('Iterator::map(Tree::nodes(self.tree), closure {closure#0}[])', ['nd.value'], 'the values of the arena tree\'s nodes'),
+    'AffTree::terminals': ('Iterator::map(Tree::terminals(self.tree), closure {closure#0}[])', ['nd.value'], 'the values of the arena tree\'s terminals'),
+    'AffTree::decisions': ('Iterator::map(Tree::decisions(self.tree), closure {closure#0}[])', ['nd.value'], 'the values of the arena tree\'s decisions'),
+}
 FLOORS = {'C13.R1': 3, 'C13.R2': 3, 'C13.R3': 2, 'C13.R4': 9, 'C13.R5': 6, 'C13.R6': 10, 'C13.R7': 6, 'C13.R8': 3, 'C13.R9': 1}
 EXPLANATION = 'Sibling agreement between the three traversals and pairing/ordering rules on their bookkeeping.'
 DOES_NOT_DECIDE = 'exact visiting sequences as a whole (decided through their local rules only), depth()/depth_stats aggregation, numeric tightness of size_hint'
@@ -51,6 +66,7 @@ def has_call(e, *names):
 
 
 def run(ctx):
+    prune.check_wrappers(ctx, 'C13.R6', WRAPPERS)
     F = ctx.facts
     imp = impls(F)
     if len(imp) < 3:
@@ -67,6 +83,11 @@ def run(ctx):
     r6(ctx)
     r7(ctx)
     r9(ctx)
+
+
+def _after_bb(cfg, a, b_):
+    """block b_ lies after block a on every path that contains both (a dominates b_ or they are the same block, straight-line order aside)"""
+    return a == b_ or cfg.dominates(a, b_)
 
 
 def r1(ctx, ty, b):
@@ -96,6 +117,10 @@ def r1(ctx, ty, b):
         c = Callee(t['func'])
         if c.name in ('push', 'push_back'):
             v = R.call_args(bb)[1]
+            for x in walk(v):
+                # the start item pushed onto an empty frontier instead of written as `vec![..]`
+                if isinstance(x, tuple) and x[:1] == ('agg',) and isinstance(x[1], tuple) and x[1][1] == 'DfsNodeData':
+                    entries.append(('node', x[2][1]))
             if v[0] == 'agg' and v[1] == 'tuple' and len(v[2]) == 4:
                 entries.append(('edge-src', v[2][1]))
                 lab, tgt = v[2][2], v[2][3]
@@ -446,6 +471,21 @@ def r5_skip(ctx, ty, m):
                 ok_lp = lp[0] == 'var' or (is_call(lp, 'Vec::len') and frontier is not None and s(lp[2][0]) == s(frontier)) or lp == ('const', 0)
             else:
                 ok_lp = lp == ('const', 0)
+            # the object may be completed after its construction (the start item pushed through a helper that also counts it): the value
+            # that counts is the last one written on the way to the return
+            later = []   # (block, statement index, value) of every write to a `.last_push` field in new()
+            for i_, j_, st_ in b.stmts():
+                if st_['k'] == 'assign' and st_['place']['proj'] and st_['place']['proj'][-1].get('k') == 'field' and st_['place']['proj'][-1].get('name') == 'last_push':
+                    later.append((i_, j_, R.rvalue(st_['rv'], i_, j_)))
+            if later:
+                cfg_ = b.cfg()
+                final = [w for w in later if all(w is x or (x[0] == w[0] and x[1] < w[1]) or (x[0] != w[0] and cfg_.dominates(x[0], w[0])) for x in later)]
+                if len(final) == 1 and not edge:
+                    lp = final[0][2]
+                    ok_lp = s(lp) == ('const', 0) and cfg_.postdominates(final[0][0], 0)
+                else:
+                    ok_lp = False
+                    lp = later[-1][2]
             (ctx.ok if ok_lp else ctx.bad)('C13.R4', '%s::new#last_push' % ty, 'initial last_push: %s' % ('the edges enqueued by new()' if edge else '0 (the start node was not enqueued by next())') if ok_lp else
                                             'a fresh traversal starts with last_push = %s: skip_subtree before the first item would drop the start node' % fmt(lp)[:60], b.span)
     for e in rets:
